@@ -6,6 +6,7 @@ import (
 	"go/constant"
 	"go/token"
 	"go/types"
+	"os"
 	"strings"
 )
 
@@ -437,4 +438,115 @@ func ruleC19(p *Prog, r *Res) {
 	r.Floor(ruleA+" request→sink flows", 3, nSinks)
 	r.Floor(ruleB+" creating opens", 2, nCreate)
 	r.Floor(ruleC, 3, nQueue)
+}
+
+// ---- C19-d: the name that is queued is the name that was created ----
+
+func init() {
+	register("C19",
+		"C19-d (AST, typed): in every function of cmd/pkappa2 that both creates a file with os.OpenFile(O_CREATE…) and queues a capture with Manager.ImportPcaps, the queued name is the very variable that forms the last path element of the created file (filepath.Join(dir…, name)): a name that is normalised for the create but queued as requested stores a capture that is never imported, while the request is answered with success.",
+		func(p *Prog, r *Res) {
+			const rule = "C19-d queued-name-is-stored-name"
+			r.Rule(rule + ": ImportPcaps receives the name under which the upload was created")
+			imp := p.Method("manager", "Manager", "ImportPcaps")
+			if imp == nil {
+				p.anchorFail("manager.Manager.ImportPcaps")
+				return
+			}
+			n := 0
+			for _, f := range p.FnList {
+				if f.Short != "main" || f.Body() == nil {
+					continue
+				}
+				info := f.Pkg.TypesInfo
+				// created path variable -> last Join element
+				var stored types.Object
+				var createPos ast.Node
+				inspectShallow(f.Body(), func(x ast.Node) bool {
+					c, ok := x.(*ast.CallExpr)
+					if !ok {
+						return true
+					}
+					fn := p.Callee(f.Pkg, c)
+					if fn == nil {
+						return true
+					}
+					creates := func(g *Fn, oc *ast.CallExpr) bool {
+						ofn := p.Callee(g.Pkg, oc)
+						if ofn == nil || ofn.FullName() != "os.OpenFile" || len(oc.Args) != 3 {
+							return false
+						}
+						tv, ok := g.Pkg.TypesInfo.Types[oc.Args[1]]
+						if !ok || tv.Value == nil {
+							return false
+						}
+						var fl int64
+						fmt.Sscan(tv.Value.ExactString(), &fl)
+						return fl&int64(os.O_CREATE) != 0
+					}
+					pathArg := ast.Expr(nil)
+					if creates(f, c) {
+						pathArg = c.Args[0]
+					} else if h := p.FnOfObj(fn); h != nil && h.Pkg == f.Pkg && h.Lit == nil && h.Body() != nil {
+						// a package-local helper that creates the file named by one of its parameters
+						for _, hc := range callsIn(h.Body()) {
+							if creates(h, hc) {
+								if po := identObj(h.Pkg.TypesInfo, hc.Args[0]); po != nil {
+									if pi := paramIndex(h, po); pi >= 0 && pi < len(c.Args) {
+										pathArg = c.Args[pi]
+									}
+								}
+							}
+						}
+					}
+					if pathArg == nil {
+						return true
+					}
+					pathObj := identObj(info, pathArg)
+					if pathObj == nil {
+						return true
+					}
+					inspectShallow(f.Body(), func(y ast.Node) bool {
+						as, ok := y.(*ast.AssignStmt)
+						if !ok || len(as.Lhs) != 1 || len(as.Rhs) != 1 || !sameObj(info, as.Lhs[0], pathObj) {
+							return true
+						}
+						if jc, ok := as.Rhs[0].(*ast.CallExpr); ok && len(jc.Args) > 0 {
+							if jf := p.Callee(f.Pkg, jc); jf != nil && jf.FullName() == "path/filepath.Join" {
+								stored = identObj(info, jc.Args[len(jc.Args)-1])
+								createPos = c
+							}
+						}
+						return true
+					})
+					return true
+				})
+				if stored == nil {
+					continue
+				}
+				inspectShallow(f.Body(), func(x ast.Node) bool {
+					c, ok := x.(*ast.CallExpr)
+					if !ok || p.Callee(f.Pkg, c) != imp || len(c.Args) != 1 {
+						return true
+					}
+					n++
+					key := f.Key() + " ImportPcaps queues the created name"
+					okName := false
+					desc := types.ExprString(c.Args[0])
+					if cl, isLit := ast.Unparen(c.Args[0]).(*ast.CompositeLit); isLit {
+						okName = len(cl.Elts) > 0
+						for _, el := range cl.Elts {
+							if identObj(info, el) != stored {
+								okName = false
+							}
+						}
+					}
+					r.Check(okName, rule, key, p.Pos(c), "queues "+stored.Name()+", the last path element of the file created at "+p.Pos(createPos), "the file is created under the name "+stored.Name()+" but "+desc+" is queued for import: when the two differ the stored capture is never imported although the upload is acknowledged")
+					return true
+				})
+			}
+			if n == 0 {
+				r.Note("%s: no function of cmd/pkappa2 both creates a file (directly or through a package-local helper) and queues a capture; nothing to compare", rule)
+			}
+		})
 }
